@@ -63,11 +63,11 @@ class Gen:
         self.r = rng
         self.cfg = dict(big_lits=True, floats=True, strings=True, lists=True, funcs=True, lambdas=True, loops=True,
                         conds=True, patterns=True, interp=True, zero_div=False, max_depth=4, n_stmts=(3, 10),
-                        hard_strings=False, str_mul=True, bare_expr=False)
+                        hard_strings=False, str_mul=True, bare_expr=False, if_stmt=True)
         if cfg.get("stage1"):
             # the straight-line scalar fragment of the C01 stage-1 theorem
-            self.cfg.update(floats=False, lists=False, funcs=False, lambdas=False, loops=False, conds=False,
-                            patterns=False, interp=False, str_mul=False, bare_expr=True)
+            self.cfg.update(floats=False, lists=False, funcs=False, lambdas=False, loops=False, conds=True,
+                            patterns=False, interp=False, str_mul=False, bare_expr=True, if_stmt=False)
         cfg = {k: v for k, v in cfg.items() if k != "stage1"}
         self.cfg.update(cfg)
         self.vars = []      # (name, ty) visible immutable bindings at top level
@@ -313,7 +313,7 @@ class Gen:
             c = self.fresh("c")
             n = r.below(4)
             return ("while", c, n, [("print", [self.expr(self.scalar_ty(), 2)])])
-        if k == 15 and self.cfg["conds"]:
+        if k == 15 and self.cfg["conds"] and self.cfg["if_stmt"]:
             self.features.add("if-stmt")
             return ("ifstmt", self.expr("Bool", 3), [("print", [self.expr(self.scalar_ty(), 2)])],
                     [("print", [self.expr(self.scalar_ty(), 2)])])
